@@ -22,7 +22,7 @@ SEEDS = [
     "start: ','.(a | b)+ NEWLINE\na: NAME\nb: NUMBER\n",
     "start: x=NAME y=[NUMBER] ~ z='+' | NAME NUMBER\n",
     "start: NAME NAME { (name, name_1) } | NUMBER\n",
-    "start: !'if' NAME &NUMBER NUMBER+ ['+' NUMBER]* NEWLINE\n",
+    "start: !'if' NAME &NUMBER NUMBER+ ('+' NUMBER)* NEWLINE\n",
     "start: a b? NEWLINE\na: 'x' ~ 'y' | 'x' 'z'\nb: (NUMBER | NAME)+\n",
     "start: r NEWLINE\nr: 'a' ~ 'b' { 'first' } | 'a' 'c' { 'second' }\n",
     "start: r NEWLINE\nr: x='a' ~ y='b' { foo(x, y) } | 'a' z='c' { foo(z) }\n",
@@ -34,7 +34,7 @@ SEEDS = [
     "start: p ';' q NEWLINE\np: (x=NAME y=NUMBER { foo(x) })+\nq: (x=NAME y=NUMBER { foo(y) })+\n",
     # a negative lookahead over a repetition (a failing x+ is not reported as None)
     "start: !(NUMBER+) n=NAME NEWLINE | k=NUMBER+ NEWLINE\n",
-    "start: !(NAME NUMBER)* NUMBER NEWLINE | &(NAME+) NAME+ NEWLINE\n",
+    "start: !((NAME NUMBER)+) NUMBER NEWLINE | &(NAME+) NAME+ NEWLINE\n",
     # a forced item over a group that can match nothing (the inner call carries a trailing comma)
     "start: NAME &&(NUMBER*) NEWLINE\n",
     "start: &&(NAME?) NUMBER NEWLINE\n",
@@ -45,8 +45,13 @@ SEEDS = [
     "start: a=['+'+] b=NAME NEWLINE { foo(a, b) }\n",
     "start: ',' a=([','+] NAME+ !NUMBER) NAME* NEWLINE\n",
     "start: a=(NUMBER+)? NAME NEWLINE\n",
+    # three and more items with the same default name: name, name_1, name_2 ...
+    "start: NAME NAME NAME NEWLINE\n",
+    "start: NAME NAME NAME NAME NEWLINE | NUMBER NUMBER NUMBER { foo(number, number_1, number_2) }\n",
+    "start: '(' '[' ']' ')' NEWLINE\n",
+    "start: a a a NEWLINE\na: NAME | NUMBER\n",
 ]
-EXTRA_INPUTS = ["v x = 1 , y = 2\n", "w x = 1 , y = 2\n", "x 1 y 2 ; z 3\n", "x\n", "1 2\n", "x y\n", "a c\n", "a b\n", "a\n", "< p , q > ; < r , s >\n", "1 2\n", "x 1\n", "x y\n", "1 x\n", "+ +\n", "+ + x\n", "\n", ", x\n", ", , x y\n"]
+EXTRA_INPUTS = ["v x = 1 , y = 2\n", "w x = 1 , y = 2\n", "x 1 y 2 ; z 3\n", "x\n", "1 2\n", "x y\n", "a c\n", "a b\n", "a\n", "< p , q > ; < r , s >\n", "1 2\n", "x 1\n", "x y\n", "1 x\n", "+ +\n", "+ + x\n", "\n", ", x\n", ", , x y\n", "a b c\n", "a b c d\n", "1 2 3\n", "( [ ] )\n", "a 1 b\n"]
 KF_LOOKAHEAD_FORCED = {"grammar": "start: &(&&'a') 'a' 'b'\n", "input": "a b\n"}
 
 
@@ -160,8 +165,7 @@ def well_formed(text: str) -> bool:
         return None
 
     def action_names_bound(a) -> bool:
-        """an action may only use the names of the items of its own alternative (each name once: the _1, _2
-        suffixes of repeated names are left to dedicated seeds)"""
+        """an action may only use the names of the items of its own alternative (repeated names with their _1, _2 suffixes)"""
         import ast as _ast
         if not a.action:
             return True
@@ -173,7 +177,15 @@ def well_formed(text: str) -> bool:
         names = [n.name or default_name(n.item) for n in a.items
                  if type(n.item) not in (G.PositiveLookahead, G.NegativeLookahead, G.Cut)]
         names = [x for x in names if x]
-        return used <= set(names) and all(names.count(u) == 1 for u in used)
+        # repeated names get the suffixes _1, _2, ... in order of appearance (the documented scheme)
+        seen: list[str] = []
+        for x in names:
+            y, k = x, 0
+            while y in seen:
+                k += 1
+                y = f"{x}_{k}"
+            seen.append(y)
+        return used <= set(seen)
 
     def ok_alt(a) -> bool:
         return not alt_falsy(a) and action_names_bound(a) and all(ok_item(n.item) for n in a.items)
